@@ -6,4 +6,6 @@ export GOFLAGS=-mod=mod GOPROXY=off GOSUMDB=off GOTOOLCHAIN=local CGO_ENABLED=0
 mkdir -p bin evidence replays
 cat /repo/go.sum /repo/v2/go.sum /repo/cmd/go.sum engine/go.sum.extra 2>/dev/null | sort -u > engine/go.sum
 (cd engine && go build -tags verif -overlay /verif/engine/overlay.json -o /verif/bin/worker ./cmd/worker)
+# pre-build what individual checks build on demand (explorer, -race complement, car CLI)
+./bin/worker __prebuild || true
 echo setup ok
